@@ -234,6 +234,10 @@ def obsStep (d : ObsDrv) (toks : List String) : Option (ObsDrv × String) :=
       match w.upgrade k with
       | some (w', r) => some ({ d with w := w' }, showOptNat r)
       | none => bad
+    | "hclonew", some k, [] =>
+      match w.cloneWeak k with
+      | some (w', id) => some ({ d with w := w' }, toString id)
+      | none => bad
     | "hdropw", some k, [] =>
       match w.dropWeak k with
       | some w' => some ({ d with w := w' }, "ok")
